@@ -81,4 +81,5 @@ def main() -> None:
     net.finish("bounded", "4x8 type pairs; name-table minimum; reader maximum; 3 stream classes x 8 logical types x framing x ns x random sizes/names/flags written and read back; strict gates of both integrations",
                "each case = one configuration point; non-trivial = accepted by the writer")
 if __name__ == "__main__":
-    main()
+    from common import run_main
+    run_main(main, "C13")
